@@ -54,4 +54,29 @@ for n in range(1, 231):
         rec["phase_pg_same"] = False
     sgs.append(rec)
 
+# histories: one Phase object whose space group is re-assigned after its point group was read (a cached or
+# stale point group would survive the assignment); folded into phase_pg_same of the number assigned last
+import random  # noqa: E402
+
+_rng = random.Random(P.get("seed", 0) if isinstance(P, dict) else 0)
+order = list(range(1, 231))
+_rng.shuffle(order)
+order = order + list(range(1, 231)) + list(range(230, 0, -1))
+ph = Phase(space_group=225)
+_ = ph.point_group, repr(ph)
+for n in order:
+    rec = sgs[n - 1]
+    try:
+        ph.space_group = n
+        got = ph.point_group
+        want = get_point_group(n)
+        same = bool(got.shape == want.shape and np.allclose(got.data, want.data) and np.array_equal(got.improper, want.improper))
+        cp = ph.deepcopy()
+        same = same and cp.point_group.name == want.name
+    except Exception as e:  # noqa
+        same = False
+    if not same:
+        rec["phase_pg_same"] = False
+        rec["phase_pg"] = str(rec.get("phase_pg")) + " (history: space_group re-assigned on a used Phase)"
+
 emit({"groups": groups, "extra": extra, "proper_groups": proper_groups, "sgs": sgs})
